@@ -357,6 +357,10 @@ def report(prop: str, tier: str, results: List[Dict[str, Any]], wall: float, ver
         (VERIF / "evidence" / f"{prop}.json").write_text(json.dumps(ev, indent=1, default=str))
     print(f"[{prop}] tier={tier} units={len(results)} obligations={n_ob} proved={len(proved)} refuted={len(refuted)} "
           f"unknown={len(unknown)} bounded_units={len(bounded)} wall={wall:.1f}s solver={solver_s:.1f}s")
+    if verbose:
+        for g in grouped.values():
+            if g["time_s"] > 2:
+                print(f"  SLOW {g['time_s']:.1f}s x{g['instances']} {g['key']} {sorted(g['backends'])}")
     if verbose or rc != 0:
         for g in refuted:
             print(f"  REFUTED {g['key']} :: {g['desc'][:120]} :: model={g['model']}")
